@@ -51,8 +51,11 @@ def dict_keys_of_name(fn, name):
                     keys += literal_dict_keys(st.value)
                 elif isinstance(st.value, ast.DictComp):
                     gen = ast.unparse(st.value.generators[0].iter)
+                    g0 = st.value.generators[0]
                     if gen in ("den.items()", "d.items()") or "enacc" in gen:
                         keys.append(ENACC)
+                    elif isinstance(g0.iter, (ast.Tuple, ast.List)) and isinstance(g0.target, ast.Name) and isinstance(st.value.key, ast.Name) and st.value.key.id == g0.target.id and not g0.ifs:
+                        keys += strs(g0.iter)
                     else:
                         raise TranslationError("dict comprehension over %s" % gen)
                 elif isinstance(st.value, ast.Call) and "enacc" in ast.unparse(st.value.func):
@@ -115,6 +118,8 @@ def returned_keys(fn):
             sets.append(literal_dict_keys(v))
         elif isinstance(v, ast.Name):
             sets.append(dict_keys_of_name(fn, v.id))
+        elif isinstance(v, ast.Call) and ast.unparse(v.func) in ("set",) and ast.unparse(v.args[0]).replace(" ", "") in ("self.shapes()", "self.shapes().keys()"):
+            return None  # defer to shapes()
         elif isinstance(v, ast.Call) and ast.unparse(v.func) in ("set",):
             sets.append(strs(v.args[0]))
         elif isinstance(v, ast.Call) and ast.unparse(v.func).endswith(".union"):
@@ -122,8 +127,11 @@ def returned_keys(fn):
             if "enacc.keys()" not in base:
                 raise TranslationError("union over %s" % base)
             sets.append([ENACC] + strs(v.args[0]))
-        elif isinstance(v, ast.Call) and ast.unparse(v) == "self.shapes().keys()":
+        elif isinstance(v, ast.Call) and ast.unparse(v).replace(" ", "") in ("self.shapes().keys()", "set(self.shapes())", "set(self.shapes().keys())", "set(self.shapes().keys())"):
             return None  # defer to shapes()
+        elif isinstance(v, ast.DictComp) and len(v.generators) == 1 and isinstance(v.generators[0].target, ast.Name) and isinstance(v.key, ast.Name) \
+                and v.key.id == v.generators[0].target.id and not v.generators[0].ifs:
+            sets.append(strs(v.generators[0].iter))      # {k: ... for k in ("a", "b", ...)}
         else:
             raise TranslationError("%s returns %s, not a dictionary with literal keys" % (fn.name, ast.unparse(v)[:60]))
     first = sorted(set(sets[0]))
